@@ -76,7 +76,8 @@ type c02HS struct {
 	judge  func(v refsxg.Version) int
 	// mayRefuse: the library may decline to MI-encode / sign this exchange (then nothing is claimed);
 	// if it agrees, the exchange is judged like any other
-	mayRefuse bool
+	mayRefuse   bool
+	caseCollide bool
 }
 
 func c02Always(j int) func(refsxg.Version) int { return func(refsxg.Version) int { return j } }
@@ -142,6 +143,10 @@ var c02HeaderSets = []c02HS{
 	{name: "preexisting-empty-digest", resp: c02Resp(c02F("Digest", "")), judge: c02Always(c02JudgeFull), mayRefuse: true},
 	{name: "preexisting-empty-mi-draft2", resp: c02Resp(c02F("Mi-Draft2", "")), judge: c02Always(c02JudgeFull), mayRefuse: true},
 	{name: "preexisting-content-encoding", resp: c02Resp(c02F("Content-Encoding", "gzip")), judge: c02Always(c02JudgeFull), mayRefuse: true},
+	// one field name stored under four letter cases (only possible by direct map assignment); today the library
+	// declines (duplicate CBOR key at sign or write time)
+	{name: "one-name-four-cases", resp: c02Resp(c02F("X-Trace", "a"), c02F("x-trace", "b"), c02F("X-TRACE", "c"), c02F("x-Trace", "d")),
+		req: []refsxg.Field{c02F("X-Rq", "1"), c02F("x-rq", "2")}, judge: c02Always(c02JudgeFull), mayRefuse: true, caseCollide: true},
 	{name: "noncanonical-policy-keys", resp: func() []refsxg.Field {
 		return []refsxg.Field{c02F("content-type", "text/html")}
 	}, judge: c02Always(c02Record)},
@@ -232,6 +237,9 @@ type c02Built struct {
 	expires  int64
 	wantResp []refsxg.Pair
 	wantReq  []refsxg.Pair
+	// skipHeaders: the header map holds one name under several letter cases; in which order their values are
+	// combined is not specified, so header equality is not judged (everything else, and the verdicts, are)
+	skipHeaders bool
 }
 
 // c02Compare checks what the reference parser and ReadExchange read back from file
@@ -257,10 +265,10 @@ func c02Compare(b *c02Built, file []byte) (diffs []string, got *signedexchange.E
 		if x.Version.HasRequest() && p.Method != x.Method {
 			diffs = append(diffs, fmt.Sprintf("reference parser: method %q", p.Method))
 		}
-		if !refsxg.EqualPairs(p.RespHeaders, b.wantResp) {
+		if !b.skipHeaders && !refsxg.EqualPairs(p.RespHeaders, b.wantResp) {
 			diffs = append(diffs, "reference parser: response headers "+c02Pairs(p.RespHeaders))
 		}
-		if !refsxg.EqualPairs(p.ReqHeaders, b.wantReq) {
+		if !b.skipHeaders && !refsxg.EqualPairs(p.ReqHeaders, b.wantReq) {
 			diffs = append(diffs, "reference parser: request headers "+c02Pairs(p.ReqHeaders))
 		}
 		if !bytes.Equal(p.Payload, x.Payload) {
@@ -324,10 +332,10 @@ func c02Compare(b *c02Built, file []byte) (diffs []string, got *signedexchange.E
 	if got.ResponseStatus != x.Status {
 		diffs = append(diffs, fmt.Sprintf("ReadExchange: status %d", got.ResponseStatus))
 	}
-	if gp := refsxg.Fold(c02Fields(got.ResponseHeaders)); !refsxg.EqualPairs(gp, b.wantResp) {
+	if gp := refsxg.Fold(c02Fields(got.ResponseHeaders)); !b.skipHeaders && !refsxg.EqualPairs(gp, b.wantResp) {
 		diffs = append(diffs, "ReadExchange: response headers "+c02Pairs(gp)+" WANT "+c02Pairs(b.wantResp))
 	}
-	if gp := refsxg.Fold(c02Fields(got.RequestHeaders)); !refsxg.EqualPairs(gp, b.wantReq) {
+	if gp := refsxg.Fold(c02Fields(got.RequestHeaders)); !b.skipHeaders && !refsxg.EqualPairs(gp, b.wantReq) {
 		diffs = append(diffs, "ReadExchange: request headers "+c02Pairs(gp)+" WANT "+c02Pairs(b.wantReq))
 	}
 	if got.SignatureHeaderValue != x.Signature {
@@ -474,10 +482,15 @@ func c02Roundtrip(c *mc.Ctx) {
 	c.Transitions(int64(len(times)))
 
 	file, werr, wpan := c02Write(b.e)
+	if werr != nil && wpan == "" && hs.mayRefuse {
+		c.Outcome(fmt.Sprintf("library declines to write (nothing claimed): %s %s", hs.name, ver.ref))
+		return
+	}
 	if werr != nil || wpan != "" {
 		fail("write", "Write failed on an exchange that fits the format", "nil", fmt.Sprintf("err=%v panic=%q", werr, wpan))
 		return
 	}
+	b.skipHeaders = hs.caseCollide
 	diffs, got := c02Compare(b, file)
 	c.Eval()
 	if len(diffs) > 0 {
@@ -705,7 +718,7 @@ func init() {
 	register(&mc.Property{
 		ID:    "C02",
 		Level: "model_checking",
-		Rule:  "C02/roundtrip: full product (no deviation bound) of version {1b1,1b2,1b3} x key {P-256, P-384} x MI record size {1,2,16,4096,16384; thorough +3,17,255,256,16383} x payload length {0,1,rs-1,rs,rs+1,2rs,2rs+1; thorough +3rs-1,3rs,3rs+1} (<= 40000, duplicates removed) x 19 header sets (minimal; four responses that already carry Digest (other algorithm / empty), an empty MI-Draft2 or Content-Encoding before MI-encoding: the library may decline, otherwise the full oracle applies; multi-valued fields with lower/UPPER/MiXeD names in request and response; multi-valued Cache-Control benign / no-store second / first / only; 65536-byte value and 262-byte name; 30 fields; empty and comma-holding values; Set-Cookie; HEAD; POST; 404; 599; non-canonical policy keys (recorded only)) x window {3600; thorough +2, 604800}; each exchange is signed with real ECDSA, verified at 7 instants, written, read back by refsxg and by ReadExchange and verified again at the same instants. C02/limits: the 18 length-field boundary exchanges (fallback URL 65535/65536 in all versions, Signature header 16384/16385 and header block 524288/524289 in b2/b3, both 3-byte fields at 2^24-1/2^24 in b1). A round-trip case is non-trivial when the generator knows it meets the acceptance policy, so the whole verdict vector and the returned payload are judged; a limits case is non-trivial when it is over the limit.",
+		Rule:  "C02/roundtrip: full product (no deviation bound) of version {1b1,1b2,1b3} x key {P-256, P-384} x MI record size {1,2,16,4096,16384; thorough +3,17,255,256,16383} x payload length {0,1,rs-1,rs,rs+1,2rs,2rs+1; thorough +3rs-1,3rs,3rs+1} (<= 40000, duplicates removed) x 20 header sets (minimal; one field name stored under four letter cases (the library may decline; if it signs and writes, verdicts and everything but header equality are judged); four responses that already carry Digest (other algorithm / empty), an empty MI-Draft2 or Content-Encoding before MI-encoding: the library may decline, otherwise the full oracle applies; multi-valued fields with lower/UPPER/MiXeD names in request and response; multi-valued Cache-Control benign / no-store second / first / only; 65536-byte value and 262-byte name; 30 fields; empty and comma-holding values; Set-Cookie; HEAD; POST; 404; 599; non-canonical policy keys (recorded only)) x window {3600; thorough +2, 604800}; each exchange is signed with real ECDSA, verified at 7 instants, written, read back by refsxg and by ReadExchange and verified again at the same instants. C02/limits: the 18 length-field boundary exchanges (fallback URL 65535/65536 in all versions, Signature header 16384/16385 and header block 524288/524289 in b2/b3, both 3-byte fields at 2^24-1/2^24 in b1). A round-trip case is non-trivial when the generator knows it meets the acceptance policy, so the whole verdict vector and the returned payload are judged; a limits case is non-trivial when it is over the limit.",
 		Assumptions: []string{
 			"refsxg (independent parser / serializer of the file layout) and refcbor are correct",
 			"the MI digest value is taken from the implementation (C14 checks MI encoding); the round trip is judged on what the library itself produced when signing",
